@@ -281,7 +281,7 @@ Definition unb_before := with_sub [XC (b "e") [em (b "q") (b "x") []; tx [rf (b 
 Example unb_before_ns :
   wf_syntax6 unb_before = true /\ limits_of6 unb_before = Some false /\ ns_of_unfolding unb_before = Some false /\
   match parse (S6.render unb_before) opt_dtd with Err (UnknownNamespace _ _) => True | _ => False end.
-Proof. repeat split; vm_compute; try reflexivity; exact I. Qed.
+Proof. split; [|split; [|split]]; vm_compute; first [reflexivity|exact I]. Qed.
 (* the same element AFTER the reference: the detector stops first.  The hypothesis fails all the same: it is sufficient,
    not necessary. *)
 Definition unb_after := with_sub [XC (b "e") [tx [rf (b "e")]; em (b "q") (b "x") []]] (r0 [tx [rf (b "e")]]).
@@ -295,13 +295,13 @@ Definition dup_before := with_sub [XT (b "e") [lit (b "v"); rf (b "e")]]
 Example dup_before_ns :
   ns_of_unfolding dup_before = Some false /\
   match parse (S6.render dup_before) opt_dtd with Err (DuplicatedNamespace _ _) => True | _ => False end.
-Proof. split; vm_compute; [reflexivity|exact I]. Qed.
+Proof. split; vm_compute; first [reflexivity|exact I]. Qed.
 (* an undeclared name met first; '<' coming into an attribute value first *)
 Definition undecl_first := with_sub [XT (b "a") [rf (b "u"); rf (b "a")]] (r0 [tx [rf (b "a")]]).
 Example undeclared_first :
   ginline6 undecl_first = None /\
   match parse (S6.render undecl_first) opt_dtd with Err (UnknownEntityReference _ _) => True | _ => False end.
-Proof. split; vm_compute; [reflexivity|exact I]. Qed.
+Proof. split; vm_compute; first [reflexivity|exact I]. Qed.
 
 Print Assumptions cycle_rejected_b.
 Print Assumptions depth_rejected_b.
